@@ -150,8 +150,8 @@ impl Property for C03 {
     }
     fn cases(&self, tier: Tier) -> usize {
         match tier {
-            Tier::Quick => 60_000,
-            Tier::Thorough => 3_000_000,
+            Tier::Quick => 300_000,
+            Tier::Thorough => 6_000_000,
         }
     }
     fn tape_max(&self) -> usize {
